@@ -488,3 +488,17 @@ Proof.
   - runfold. simpl. lra.
   - intros E. unfold vzero in E. injection E as E1 E2 E3. revert E3. runfold. simpl. lra.
 Qed.
+
+(* ------------------------------------------------------------------ displ=None *)
+Lemma default_displ (pos : posR) (tb : tableR) k ss u neg g out :
+  move_mol_atom_default pos tb k ss u neg g = Ok out ->
+  exists d, find_atom_random_displ pos tb k ss u neg g = Ok d /\ move_mol_atom pos tb k d = Ok out /\
+    vnorm d = Rabs g /\
+    (exists nb, tbl_get tb k = Ok nb /\ displ_perp_spec pos k nb d) /\
+    exists pk, nth_error pos k = Some pk /\ nth_error out k = Some (vadd pk d).
+Proof.
+  unfold move_mol_atom_default. intros E. apply bind_ok in E. destruct E as (d & Hd & Hm).
+  exists d. split; auto. split; auto.
+  destruct (displ_perp _ _ _ _ _ _ _ _ Hd) as [Hn Hp].
+  destruct (moved_atom _ _ _ _ _ Hm) as [_ Hk]. auto.
+Qed.
